@@ -641,6 +641,30 @@ MUTANTS = [
         """        m.write_flag.store(true, std::memory_order_relaxed);
         if (m.try_lock()) {
             s.m_mutex = &m;""")]),
+    dict(name='c12-seed4-skip-list-copy-assign-inserts-before-comparator', prop='C12', clause='D6', edits=[('include/oneapi/tbb/detail/_concurrent_skip_list.h',
+        """            my_compare = other.my_compare;
+            my_rng = other.my_rng;
+            internal_copy(other);""",
+        """            internal_copy(other);
+            my_compare = other.my_compare;
+            my_rng = other.my_rng;""")]),
+    dict(name='c12-unordered-copy-assign-keeps-own-hasher', prop='C12', clause='D6', edits=[('include/oneapi/tbb/detail/_concurrent_unordered_base.h',
+        """            my_hash_compare = other.my_hash_compare;
+            my_segments = other.my_segments;""",
+        """            my_segments = other.my_segments;""")]),
+    dict(name='c12-unordered-move-assign-keeps-own-hasher', prop='C12', clause='D6', edits=[('include/oneapi/tbb/detail/_concurrent_unordered_base.h',
+        """            my_hash_compare = std::move(other.my_hash_compare);
+            my_segments = std::move(other.my_segments);""",
+        """            my_segments = std::move(other.my_segments);""")]),
+    dict(name='c12-unordered-copy-ctor-default-hasher', prop='C12', clause='D6', edits=[('include/oneapi/tbb/detail/_concurrent_unordered_base.h',
+        """          my_hash_compare(other.my_hash_compare),
+          my_head(other.my_head.order_key()),
+          my_segments(other.my_segments)
+""",
+        """          my_hash_compare(),
+          my_head(other.my_head.order_key()),
+          my_segments(other.my_segments)
+""")]),
     dict(name='c05-seed4-pop-back-unsigned-char-underflow', prop='C05', clause='D7', edits=[(PT_H,
         "        my_head = (my_head + MaxCapacity - 1) % MaxCapacity;", "        my_head = (my_head - 1) % MaxCapacity;")]),
     dict(name='c05-pop-front-steps-by-two', prop='C05', clause='D7', edits=[(PT_H,
@@ -1377,6 +1401,28 @@ BENIGN = [
         """        const bool locked = m.try_lock();
         if (locked) {
             s.m_mutex = &m;""")]),
+    dict(name='c12-b-skip-list-copy-assign-rng-after-copy', prop='C12', edits=[('include/oneapi/tbb/detail/_concurrent_skip_list.h',
+        """            my_compare = other.my_compare;
+            my_rng = other.my_rng;
+            internal_copy(other);""",
+        """            my_compare = other.my_compare;
+            internal_copy(other);
+            my_rng = other.my_rng;""")]),
+    dict(name='c12-b-unordered-copy-assign-hasher-first', prop='C12', edits=[('include/oneapi/tbb/detail/_concurrent_unordered_base.h',
+        """            clear();
+            my_size.store(other.my_size.load(std::memory_order_relaxed), std::memory_order_relaxed);
+            my_bucket_count.store(other.my_bucket_count.load(std::memory_order_relaxed), std::memory_order_relaxed);
+            my_max_load_factor = other.my_max_load_factor;
+            my_hash_compare = other.my_hash_compare;
+            my_segments = other.my_segments;
+            internal_copy(other);""",
+        """            clear();
+            my_hash_compare = other.my_hash_compare;
+            my_size.store(other.my_size.load(std::memory_order_relaxed), std::memory_order_relaxed);
+            my_bucket_count.store(other.my_bucket_count.load(std::memory_order_relaxed), std::memory_order_relaxed);
+            my_max_load_factor = other.my_max_load_factor;
+            my_segments = other.my_segments;
+            internal_copy(other);""")]),
     dict(name='c05-b-ring-step-by-conditional', prop='C05', edits=[(PT_H,
         "        my_tail = (my_tail + 1) % MaxCapacity;", "        my_tail = depth_t(my_tail + 1 == MaxCapacity ? 0 : my_tail + 1);")]),
     dict(name='c06-b-ring-back-step-by-conditional', prop='C06', edits=[(PT_H,
